@@ -1,6 +1,6 @@
 """C08 — each matching spotlight line yields exactly one correctly valued data point."""
 import html
-import json
+import json, os, shutil
 import re
 from fractions import Fraction as F
 from .common import *
@@ -383,6 +383,30 @@ def run(tier, seed):
                 ofail.append({"config": big, "lines": [], "file": fn, "real_rows": [str(v) for v in vals], "expected_points": [str(float(k + 1)), str(float(k + 101))],
                               "tag": {"kind": "large-cast"}})
                 break
+    # "every pace at which lines arrive": a spotlight that prints faster than it is read, stopped at the end of the play.
+    # Every line `tee` has copied to written.txt had been written to the pipe before (tee serves its standard output
+    # first): each must have become a data point.
+    chatty = ("role r\n  :go sleep 1\n  spotlight seq 1 200000 | sed -e \"s/^/n /\" | tee written.txt; sleep 20\n"
+              "  signal n scalar at (?P<ts_now>)^n (?P<scalar>\\d+)$\nend\ncast\n  x plays r\nend\nscript\n  tempo 100ms\n"
+              "  scene a entails for x: go\n  storyline a\nend\naudience\n  o1 watches x n\nend\n")
+    pipe_lost = []
+    for er in e2e.run_many([e2e.Play(chatty, args=["-k"], timeout=60, keep=True)], workers=1):
+        rep.count("e2e-chatty-spotlight-plays")
+        try:
+            written = len(open(os.path.join(er["rundir"], "artifacts", "x", "written.txt")).read().splitlines())
+        except (OSError, TypeError):
+            written = None
+        points = len((er["csv"].get("o1.x.n.csv") or "").splitlines())
+        rep.sample({"chatty_spotlight": {"lines_written_to_the_pipe": written, "data_points": points}})
+        if written is not None and points < written:
+            pipe_lost.append({"config": chatty, "lines": [], "file": "o1.x.n.csv", "real_rows": ["%d data points" % points], "expected_points": ["%d lines were printed before the spotlight was stopped" % written],
+                              "tag": {"kind": "lines-in-the-pipe-at-the-stop"}})
+        shutil.rmtree(er["cwd"], ignore_errors=True)
+    pipe_known = bool(pipe_lost) and rep.match_known({"kind": "lines-in-the-pipe-at-the-stop"}) is not None
+    rep.obligation("O-C08p: a spotlight stopped at the end of the play loses none of the lines it had printed%s" % (" — the known finding excepted (it fails as recorded)" if pipe_known else ""),
+                   "O", (not pipe_lost) or pipe_known, json.dumps(pipe_lost[:1])[:600])
+    for f in pipe_lost:
+        rep.violation("%s: %s, %s" % (f["file"], f["real_rows"][0], f["expected_points"][0]), f, tags=f["tag"])
     rep.obligation("K-C08: detectSignals + audit loop vs model on the forwarded observations (%d cases)" % len(cases), "K", not kdis, json.dumps(kdis[:2])[:1800])
     rep.obligation("O-C08: every CSV file holds exactly the points its lines denote (pointsOf) (real collector)", "O", not ofail, json.dumps(ofail[:2])[:1800])
     if ofail:
